@@ -12,7 +12,7 @@ def check(run):
     run.add_tlc(m)
     # V: all four function tables of the implementation against the spec
     trace = os.path.join(run.work, "trace.ndjson")
-    core.run_rs(["c13", trace])
+    core.run_rs("c13", [trace])
     events = core.read_ndjson(trace)
     core.check_i32(events)
     rejected, r = core.validate("trace/Trace_Gillham", trace, n_events=len(events), timeout=900)
